@@ -201,7 +201,10 @@ def update_state(elasticTrialStrain, stateOld, dt, props, hardening_model):
     N = compute_flow_direction(elasticTrialStrain)
     lb = eqpsOld
     trialMises = 2 * props[PROPS_MU] * np.tensordot(TensorMath.dev(elasticTrialStrain), N)
-    ub = eqpsOld + (trialMises - hardening_model.compute_flow_stress(eqpsOld, eqpsOld, dt))/(3.0*props[PROPS_MU])
+    # For vanishing hardening slope the root sits exactly on this bound, and rounding can leave the
+    # residual there with the wrong sign (no bracket -> nan). Pad by the residual tolerance.
+    ub = eqpsOld + (trialMises - hardening_model.compute_flow_stress(eqpsOld, eqpsOld, dt)
+                    + _TOLERANCE*props[PROPS_Y0])/(3.0*props[PROPS_MU])
     # Avoid the initial guess eqpsGuess = eqpsOld, because the power law rate sensitivity has an infinte slope
     # in this case.
     eqpsGuess = 0.5*(lb + ub)
